@@ -124,6 +124,8 @@ ApiFails(ev, before) ==
     (IF valid /\ ev.outcome # "ok" THEN {F_("C19", <<"a valid call was refused", ev.kind, ev.what>>, "api-valid-refused")} ELSE {}) \cup
     (IF ~valid /\ ev.outcome = "ok" THEN {F_("C19", <<"an invalid call was accepted", ev.kind, ev.arg>>, "api-invalid-accepted")} ELSE {}) \cup
     (IF ~valid /\ ev.circ # before THEN {F_("C19", <<"a refused call changed the circuit", ev.kind>>, "api-sideeffect")} ELSE {}) \cup
+    \* the object must stay internally consistent (its own check()) after every call, refused or not
+    (IF ev.check # "" THEN {F_("C19", <<"Circuit::check() fails after the call", ev.kind, ev.outcome, ev.check>>, "api-inconsistent")} ELSE {}) \cup
     (IF valid /\ ev.outcome = "ok" /\ ev.circ # exp
      THEN {F_("note", <<"state after the call differs from the abstract data type", ev.kind, ev.arg>>, "api-effect-diff")}
      ELSE {F_("note", <<"api">>, "api-effect-same")}) \cup
